@@ -34,7 +34,7 @@ RULE = (
 )
 ASSUMPTIONS = ["helper parameters annotated Any (eq/ne/gt/ge/lt/le value, call_method args) are exercised as constants only"]
 FLOORS = {"bracketings_compared": (1500, 30000), "identity_checks": (400, 8000), "split_checks": (1500, 30000), "rshift_checks": (400, 8000),
-          "param_key_checks": (400, 8000), "reuse_checks": (300, 6000), "helper_cases": (247, 247), "helper_cases_with_option_argument": (144, 144), "helpers_covered": (60, 60), "helper_reapplications": (238, 238), "pipeline_history_steps": (3000, 60000), "stateful_step_evaluations": (36, 36), "templated_parameter_checks": (150, 3000)}
+          "param_key_checks": (400, 8000), "reuse_checks": (300, 6000), "helper_cases": (263, 263), "helper_cases_with_option_argument": (144, 144), "helpers_covered": (60, 60), "helper_reapplications": (254, 254), "pipeline_history_steps": (3000, 60000), "stateful_step_evaluations": (36, 36), "templated_parameter_checks": (150, 3000)}
 SHARDS_QUICK = 2
 
 
@@ -313,6 +313,26 @@ def is_pos(v):
     return v > 0
 
 
+class Unordered:
+    """A value that is not ordered with respect to anything (like NaN): every comparison is False."""
+
+    def __lt__(self, other):
+        return False
+
+    __le__ = __gt__ = __ge__ = __lt__
+
+    def __eq__(self, other):
+        return False
+
+    __hash__ = None
+
+    def __repr__(self):
+        return "Unordered()"
+
+
+NAN = float("nan")
+
+
 def kv_swap(k, v):
     return (v, k)
 
@@ -363,15 +383,15 @@ def helper_table():
         "invert": [(lambda V: F.invert(V(is_pos)), 3, False), (lambda V: F.invert(V(is_pos)), -3, True)],
         "eq": [(lambda V: F.eq(3), 3, True), (lambda V: F.eq(3), 4, False)],
         "ne": [(lambda V: F.ne(3), 3, False)],
-        "gt": [(lambda V: F.gt(3), 4, True), (lambda V: F.gt(3), 3, False)],
-        "ge": [(lambda V: F.ge(3), 3, True), (lambda V: F.ge(3), 2, False)],
-        "lt": [(lambda V: F.lt(3), 2, True), (lambda V: F.lt(3), 3, False)],
-        "le": [(lambda V: F.le(3), 3, True), (lambda V: F.le(3), 4, False)],
+        "gt": [(lambda V: F.gt(3), 4, True), (lambda V: F.gt(3), 3, False), (lambda V: F.gt(3), NAN, False), (lambda V: F.gt(3), Unordered(), False)],
+        "ge": [(lambda V: F.ge(3), 3, True), (lambda V: F.ge(3), 2, False), (lambda V: F.ge(3), NAN, False), (lambda V: F.ge(3), Unordered(), False)],
+        "lt": [(lambda V: F.lt(3), 2, True), (lambda V: F.lt(3), 3, False), (lambda V: F.lt(3), NAN, False), (lambda V: F.lt(3), Unordered(), False)],
+        "le": [(lambda V: F.le(3), 3, True), (lambda V: F.le(3), 4, False), (lambda V: F.le(3), NAN, False), (lambda V: F.le(3), Unordered(), False)],
         "has_remainder": [(lambda V: F.has_remainder(V(5), V(2)), 12, True), (lambda V: F.has_remainder(V(5), V(2)), 11, False)],
-        "positive": [(lambda V: F.positive, 1, True), (lambda V: F.positive, 0, False)],
-        "negative": [(lambda V: F.negative, -1, True), (lambda V: F.negative, 0, False)],
-        "non_positive": [(lambda V: F.non_positive, 0, True), (lambda V: F.non_positive, 1, False)],
-        "non_negative": [(lambda V: F.non_negative, 0, True), (lambda V: F.non_negative, -1, False)],
+        "positive": [(lambda V: F.positive, 1, True), (lambda V: F.positive, 0, False), (lambda V: F.positive, NAN, False), (lambda V: F.positive, Unordered(), False)],
+        "negative": [(lambda V: F.negative, -1, True), (lambda V: F.negative, 0, False), (lambda V: F.negative, NAN, False), (lambda V: F.negative, Unordered(), False)],
+        "non_positive": [(lambda V: F.non_positive, 0, True), (lambda V: F.non_positive, 1, False), (lambda V: F.non_positive, NAN, False), (lambda V: F.non_positive, Unordered(), False)],
+        "non_negative": [(lambda V: F.non_negative, 0, True), (lambda V: F.non_negative, -1, False), (lambda V: F.non_negative, NAN, False), (lambda V: F.non_negative, Unordered(), False)],
         "even": [(lambda V: F.even, 4, True), (lambda V: F.even, 3, False)],
         "odd": [(lambda V: F.odd, 3, True), (lambda V: F.odd, 4, False)],
         "is_none": [(lambda V: F.is_none, None, True), (lambda V: F.is_none, 0, False)],
